@@ -15,6 +15,69 @@ def _strip_generics(s):
     return out
 
 
+# external provided methods that call back into trait impls of their receiver / argument
+CALLBACKS = [
+    (("byteorder::ReadBytesExt::", "std::io::Read::"), ("std::io::Read::read",)),
+    (("byteorder::WriteBytesExt::", "std::io::Write::"), ("std::io::Write::write", "std::io::Write::flush")),
+    (("std::io::Seek::",), ("std::io::Seek::seek",)),
+    (("std::iter::Iterator::", "std::iter::IntoIterator::", "std::iter::ExactSizeIterator::"),
+     ("std::iter::Iterator::next", "std::iter::Iterator::size_hint")),
+    (("core::fmt::rt::Argument::<'_>::new_display", "std::string::ToString::to_string"), ("std::fmt::Display::fmt",)),
+    (("core::fmt::rt::Argument::<'_>::new_debug",), ("std::fmt::Debug::fmt",)),
+    (("std::str::<impl str>::parse", "core::str::<impl str>::parse"), ("std::str::FromStr::from_str",)),
+    (("std::convert::Into::into",), ("std::convert::From::from",)),
+]
+
+
+def medium_params(f):
+    """bare type parameters that are generic arguments of the enclosing impl's Self type (Package<F>,
+    CompoundFile<F>, Stream<F>, Sectors<F> ...): they stand for the underlying medium and are never
+    instantiated with an analysed type."""
+    owner = f.owner or f
+    s = owner.impl_self or ""
+    if "<" not in s:
+        return set()
+    inner = s[s.index("<") + 1: s.rindex(">")]
+    out = set()
+    for a in re.split(r"[,<>\s&]+", inner):
+        if re.fullmatch(r"[A-Z][A-Za-z0-9]*", a or ""):
+            out.add(a)
+    return out
+
+
+def bare_ty(ty):
+    t = (ty or "").strip()
+    while t.startswith("&"):
+        t = t[1:].lstrip()
+        if t.startswith("'"):
+            t = t.split(" ", 1)[1] if " " in t else ""
+        if t.startswith("mut "):
+            t = t[4:]
+    return t
+
+
+def trait_path(impl_trait):
+    """'<Self as path::Trait<G>>' -> 'path::Trait'"""
+    if not impl_trait:
+        return None
+    s = impl_trait
+    if s.startswith("<") and s.endswith(">"):
+        inner = s[1:-1]
+        depth = 0
+        i = 0
+        while i < len(inner):
+            ch = inner[i]
+            if ch in "<([":
+                depth += 1
+            elif ch in ">)]" and not (ch == ">" and i > 0 and inner[i - 1] == "-"):
+                depth -= 1
+            elif depth == 0 and inner.startswith(" as ", i):
+                s = inner[i + 4:]
+                break
+            i += 1
+    return _strip_generics(s)
+
+
 class CallGraph:
     def __init__(self, prog, dyn_gate=None):
         """dyn_gate(trait_method_name) -> bool decides whether dyn dispatch edges are followed (default: all)."""
@@ -25,11 +88,11 @@ class CallGraph:
         self.impls = {}      # "traitpath::method" -> [Fn]
         for f in prog.fns.values():
             if f.impl_trait and f.kind == "AssocFn":
-                tr = _strip_generics(f.impl_trait)
+                tr = trait_path(f.impl_trait)
                 m = f.path.rsplit("::", 1)[-1]
                 self.impls.setdefault(tr + "::" + m, []).append(f)
         self.drop_impls = [f for f in prog.fns.values()
-                           if f.impl_trait and _strip_generics(f.impl_trait).endswith("ops::Drop") and f.path.endswith("::drop")]
+                           if f.impl_trait and (trait_path(f.impl_trait) or "").endswith("ops::Drop") and f.path.endswith("::drop")]
         for f in prog.fns.values():
             self._build(f, dyn_gate)
 
@@ -66,6 +129,13 @@ class CallGraph:
                     self._add(f, g, b["id"], "call")
                 elif not t.get("rid") and t.get("callee"):
                     self._dyn(f, b["id"], t, dyn_gate)
+                if g is None and bare_ty(t.get("selfty")) not in medium_params(f):
+                    cal = t.get("callee") or ""
+                    for pres, targets in CALLBACKS:
+                        if cal.startswith(pres):
+                            for k in targets:
+                                for h in self.impls.get(k, []):
+                                    self._add(f, h, b["id"], "callback")
             elif t["t"] == "drop":
                 ty = t["ty"]
                 for d in self.drop_impls:
@@ -75,14 +145,17 @@ class CallGraph:
                         self._add(f, d, b["id"], "drop-glue")
 
     def _dyn(self, f, block, t, dyn_gate):
+        if bare_ty(t.get("selfty")) in medium_params(f):
+            return  # a call on the medium itself: external by definition
         key = _strip_generics(t["callee"])
         cands = []
         for k, fs in self.impls.items():
             if k == key or k.endswith("::" + key) or key.endswith("::" + k):
                 cands.extend(fs)
         if cands:
-            self.dyn_sites.append((f, block, t, cands))
-            if dyn_gate is None or dyn_gate(key):
+            is_dyn = "dyn " in (t.get("selfty") or "")
+            self.dyn_sites.append((f, block, t, cands, is_dyn))
+            if not is_dyn or dyn_gate is None or dyn_gate(key):
                 for g in cands:
                     self._add(f, g, block, "dyn")
 
